@@ -51,6 +51,10 @@ TRIGGERS = [
     ('remove_builtin_exception_brackets', 'raise_from', 'try:\n    raise TypeError() from KeyError()\nexcept TypeError as caught:\n    result.append(type(caught.__cause__).__name__)', False),
     ('remove_builtin_exception_brackets', 'raise_args', "try:\n    raise ValueError('message')\nexcept ValueError as caught:\n    result.append(caught.args)", True),
     ('remove_builtin_exception_brackets', 'raise_kwargs', "try:\n    raise OSError(*())\nexcept OSError as caught:\n    result.append(caught.args)", True),
+    ('remove_builtin_exception_brackets', 'raise_keyword_only', "try:\n    raise ImportError(name='plugin')\nexcept ImportError as caught:\n    result.append(caught.name)", True),
+    ('remove_builtin_exception_brackets', 'raise_double_star', "details = {'name': 'plugin'}\ntry:\n    raise ImportError(**details)\nexcept ImportError as caught:\n    result.append(caught.name)", True),
+    ('remove_builtin_exception_brackets', 'raise_star_args', "parts = ('a', 'b')\ntry:\n    raise KeyError(*parts)\nexcept KeyError as caught:\n    result.append(caught.args)", True),
+    ('remove_builtin_exception_brackets', 'raise_from_keyword', "try:\n    raise RuntimeError() from ImportError(name='plugin')\nexcept RuntimeError as caught:\n    result.append(caught.__cause__.name)", True),
     ('remove_builtin_exception_brackets', 'raise_non_builtin', 'class CustomError(Exception):\n    pass\ntry:\n    raise CustomError()\nexcept CustomError as caught:\n    result.append(caught.args)', True),
     ('remove_builtin_exception_brackets', 'raise_shadowed_local', 'def shadow():\n    ValueError = lambda: KeyError("from lambda")\n    raise ValueError()\ntry:\n    shadow()\nexcept KeyError as caught:\n    result.append(caught.args)', True),
     ('remove_builtin_exception_brackets', 'raise_attr', 'import builtins\ntry:\n    raise builtins.ValueError()\nexcept ValueError as caught:\n    result.append(caught.args)', True),
@@ -75,6 +79,10 @@ TRIGGERS = [
     ('remove_class_attribute_annotations', 'dataclass', 'from dataclasses import dataclass\n@dataclass\nclass Data:\n    attribute: int = 1\n    other: str = "x"\nresult.append(Data(2).attribute)', True),
     ('remove_class_attribute_annotations', 'dataclass_call', 'import dataclasses\n@dataclasses.dataclass(frozen=True)\nclass Data:\n    attribute: int = 1\nresult.append(Data(2).attribute)', True),
     ('remove_class_attribute_annotations', 'dataclass_nested_if', 'from dataclasses import dataclass\n@dataclass\nclass Data:\n    if True:\n        attribute: int = 1\nresult.append(Data(2).attribute)', True),
+    ('remove_class_attribute_annotations', 'dataclass_second_decorator', 'import dataclasses, functools\n@functools.total_ordering\n@dataclasses.dataclass(eq=False)\nclass Version:\n    major: int = 0\n    minor: int = 0\n    def __eq__(self, o):\n        return self.major == o.major\n    def __lt__(self, o):\n        return self.major < o.major\nresult.append(Version(3, 12).minor)', True),
+    ('remove_class_attribute_annotations', 'dataclass_last_of_three', 'from dataclasses import dataclass\ndef first_decorator(c):\n    return c\n@first_decorator\n@first_decorator\n@dataclass\nclass Data:\n    attribute: int = 1\nresult.append(Data(2).attribute)', True),
+    ('remove_class_attribute_annotations', 'namedtuple_generic', 'from typing import NamedTuple, Generic, TypeVar\nT = TypeVar("T")\nclass Pair(NamedTuple, Generic[T]):\n    left: T\n    right: int = 0\nresult.append(tuple(Pair(1)))', True),
+    ('remove_class_attribute_annotations', 'typeddict_total', 'from typing import TypedDict\nclass Movie(TypedDict, total=False):\n    title: str\n    year: int\nresult.append(sorted(Movie.__annotations__))', True),
     ('remove_class_attribute_annotations', 'namedtuple', 'from typing import NamedTuple\nclass Pair(NamedTuple):\n    left: int\n    right: int = 0\nresult.append(tuple(Pair(1)))', True),
     ('remove_class_attribute_annotations', 'typeddict', 'import typing\nclass Movie(typing.TypedDict):\n    title: str\n    year: int\nresult.append(sorted(Movie.__annotations__))', True),
     ('remove_class_attribute_annotations', 'namedtuple_in_try', 'from typing import NamedTuple\nclass Pair(NamedTuple):\n    try:\n        left: int = 0\n    finally:\n        pass\nresult.append(tuple(Pair()))', True),
